@@ -12,6 +12,7 @@ import HtaVerif.Model.C12
 import HtaVerif.Model.C17
 import HtaVerif.Model.C18
 import HtaVerif.Model.C11
+import HtaVerif.Model.C03
 /-!
 `htadrv` — line protocol driver. One JSON request per input line, one JSON answer per
 output line. Imports only `Model/*` and `Spec/*` (core Lean), never a proof file.
@@ -288,6 +289,27 @@ def handle (j : Json) : Except String Json := do
       Json.arr ((List.range l.table.length).map fun i =>
         match C11.reencode l g i with | some k => jInt k | none => Json.null).toArray
     return Json.mkObj [("table", Json.arr (g.table.map Json.str).toArray), ("maps", Json.arr maps.toArray)]
+  | "c03.run" =>
+    let evs ← (← getArr (← field j "events")).toList.mapM fun e => do
+      let a ← getArr e
+      return ({ idx := ← getInt a[0]!, ts := ← getInt a[1]!, dur := ← getInt a[2]! } : C03.Ev)
+    let out := (C03.run evs).map fun (i, p, d) => Json.arr #[jInt i, jInt p, jInt d]
+    return Json.mkObj [("entries", Json.arr out.toArray)]
+  | "c03.cmp" =>
+    -- pairs of tokens [idx,dur,kind,time]; `po` = instants at which a positive event opens
+    let po ← intList (← field j "po")
+    let pof := fun (t : Int) => po.contains t
+    let tok := fun (v : Json) => do
+      let a ← getArr v
+      return ({ idx := ← getInt a[0]!, dur := ← getInt a[1]!, kind := ← getInt a[2]!, time := ← getInt a[3]! } : C03.Tok)
+    let out ← (← getArr (← field j "pairs")).toList.mapM fun p => do
+      let a ← getArr p
+      let x ← tok a[0]!
+      let y ← tok a[1]!
+      let n := match C03.lessThanNew pof x y with | some b => Json.bool b | none => Json.null
+      let o := C03.cmpOld pof x y
+      return Json.arr #[n, jInt (if o < 0 then -1 else if o > 0 then 1 else 0), Json.bool (decide (C03.tokLt pof x y))]
+    return Json.mkObj [("results", Json.arr out.toArray)]
   | _ => throw s!"unknown op {op}"
 
 partial def loop (hin hout : IO.FS.Stream) : IO Unit := do
